@@ -639,6 +639,21 @@ func (l *loInjector) sendMAC(ip, dst, src []byte) error {
 
 func (l *loInjector) close() { syscall.Close(l.fd) }
 
+// sendRaw writes a frame with an arbitrary EtherType (ARP, LLDP, ...) and payload.
+func (l *loInjector) sendRaw(ethertype uint16, payload []byte) error {
+	ifi, err := net.InterfaceByName("lo")
+	if err != nil {
+		return err
+	}
+	frame := make([]byte, 14, 14+len(payload))
+	for i := 0; i < 6; i++ {
+		frame[i] = 0xff
+	}
+	binary.BigEndian.PutUint16(frame[12:], ethertype)
+	frame = append(frame, payload...)
+	return syscall.Sendto(l.fd, frame, 0, &syscall.SockaddrLinklayer{Protocol: htons16(ethertype), Ifindex: ifi.Index, Halen: 6})
+}
+
 type frameLenCase struct {
 	Captured int  `json:"ip_bytes_on_the_wire"` // length of the IP packet in the frame
 	Claimed  int  `json:"total_length_field"`
@@ -1202,6 +1217,79 @@ func TestC02KernelLinkHeaders(t *testing.T) {
 			t.Fatalf("%v", err)
 		}
 		rec.CaseEnumerated(c.Dst != "00:00:00:00:00:00", c, "kind:"+c.Kind)
+		return ds
+	})
+}
+
+// TestC13KernelNonIPFrames: every link carries frames that are not IP (ARP, LLDP, spanning tree); the all-protocols
+// capture socket sees them until its filter is in place. They must never reach a driver, as a packet or as an
+// empty read (which the drivers treat as fatal).
+func TestC13KernelNonIPFrames(t *testing.T) {
+	rec := NewRecorder("C13", "C13KernelNonIPFrames", "enumeration on the real kernel (private network namespace, real AF_PACKET handle): 1 or 5 non-IP frames (ARP, LLDP, an 802.3 length frame) written to the device before the handle's filter (icmp / udp variant's / tcp tuple) is set, or none before and some after, followed by a matching ICMP frame; oracle: packets.ReadAndParse returns that ICMP packet (no fatal error, no empty read); non-trivial = a non-IP frame was queued before the filter was set")
+	rec.Exhaustive = true
+	type nonIPCase struct {
+		Ether  int    `json:"ethertype"`
+		Before int    `json:"before_filter"`
+		After  int    `json:"after_filter"`
+		Filter string `json:"filter"`
+	}
+	RunCases(t, rec, func(yield func(*nonIPCase) bool) {
+		for _, et := range []int{0x0806, 0x88cc, 0x0026} {
+			for _, f := range []string{"icmp", "udp", "tcp"} {
+				for _, ba := range [][2]int{{1, 0}, {5, 0}, {0, 3}, {2, 2}} {
+					if !yield(&nonIPCase{et, ba[0], ba[1], f}) {
+						return
+					}
+				}
+			}
+		}
+	}, func(t *testing.T, c *nonIPCase, rec *Recorder) []Diff {
+		var ds []Diff
+		cfg := filterCfg{Type: c.Filter, Src: "127.0.0.1", Dst: "127.0.0.1", SPort: 443, DPort: 40000}
+		err := inNetns(nil, func() error {
+			src, err := packets.NewAFPacketSource()
+			if err != nil {
+				return fmt.Errorf("harness-infra: %v", err)
+			}
+			defer src.Close()
+			inj, err := newLoInjector()
+			if err != nil {
+				return fmt.Errorf("harness-infra: %v", err)
+			}
+			defer inj.close()
+			arp := make([]byte, 28)
+			copy(arp, []byte{0, 1, 8, 0, 6, 4, 0, 1})
+			for i := 0; i < c.Before; i++ {
+				if err := inj.sendRaw(uint16(c.Ether), arp); err != nil {
+					return fmt.Errorf("harness-infra: inject: %v", err)
+				}
+			}
+			time.Sleep(5 * time.Millisecond)
+			if err := src.SetPacketFilter(cfg.spec()); err != nil {
+				return fmt.Errorf("harness-infra: %v", err)
+			}
+			for i := 0; i < c.After; i++ {
+				inj.sendRaw(uint16(c.Ether), arp)
+			}
+			pkt := hostileICMP(&frameLenCase{Captured: 36, Claimed: 36})
+			if err := inj.send(pkt); err != nil {
+				return fmt.Errorf("harness-infra: inject: %v", err)
+			}
+			parser := packets.NewFrameParser()
+			buf := make([]byte, 1024)
+			src.SetReadDeadline(time.Now().Add(150 * time.Millisecond))
+			if err := packets.ReadAndParse(src, buf, parser); err != nil {
+				ds = append(ds, Diff{"C13", "non-ip-frame-reaches-driver", fmt.Sprintf("%d frames of EtherType %#04x were on the link before the %s filter was set (%d after); reading the ICMP packet that followed gave: %v", c.Before, c.Ether, c.Filter, c.After, err)})
+			} else if parser.GetTransportLayer() != layers.LayerTypeICMPv4 {
+				ds = append(ds, Diff{"C13", "non-ip-frame-reaches-driver", fmt.Sprintf("EtherType %#04x: the first packet handed to the parser is %v, not the ICMP packet", c.Ether, parser.GetTransportLayer())})
+			}
+			return nil
+		})
+		if err != nil {
+			fmt.Println(err)
+			t.Fatalf("%v", err)
+		}
+		rec.CaseEnumerated(c.Before > 0, c, "filter:"+c.Filter)
 		return ds
 	})
 }
